@@ -75,8 +75,12 @@ func (d *defineBuiltinMethod) defineBuiltinInstanceMethod(
 	existingT := base.GetMethodT(frame, d.targetClass, method, false)
 
 	// a method found through the inheritance chain belongs to an ancestor: this
-	// declaration overrides it, it is not a further overload of the ancestor's
-	if existingT != nil && existingT.DefinedClass != d.targetClass {
+	// declaration overrides it, it is not a further overload of the ancestor's.
+	// The same holds for a same-named class of another frame found through the
+	// frame fallback
+	if existingT != nil &&
+		(existingT.DefinedClass != d.targetClass || existingT.DefinedFrame != frame) {
+
 		existingT = nil
 	}
 
@@ -123,7 +127,9 @@ func (d *defineBuiltinMethod) defineBuiltinStaticMethod(
 
 	existingT := base.GetClassMethodT(frame, d.targetClass, method, false)
 
-	if existingT != nil && existingT.DefinedClass != d.targetClass {
+	if existingT != nil &&
+		(existingT.DefinedClass != d.targetClass || existingT.DefinedFrame != frame) {
+
 		existingT = nil
 	}
 
